@@ -82,9 +82,9 @@ func writeFile(name string, data []byte, perm os.FileMode) (err error) {
 			// a dangling link: create the file it points to (relative to the directory of the link);
 			// the target may be a dangling link itself, so keep following
 			if !filepath.IsAbs(link) {
-				link = filepath.Join(filepath.Dir(name), link)
+				link = filepath.Dir(name) + string(filepath.Separator) + link
 			}
-			name = link
+			name = resolveDir(link)
 		} else {
 			break
 		}
@@ -123,6 +123,21 @@ func writeFile(name string, data []byte, perm os.FileMode) (err error) {
 		return err
 	}
 	return os.Rename(tmp.Name(), name)
+}
+
+// resolveDir lets the file system resolve the directory part of path, the last element is kept as it is.
+// A ".." that follows a symbolic link to a directory must not be cut lexically:
+// with linkdir -> real/sub the path linkdir/../gen/out.go means real/gen/out.go, not gen/out.go.
+func resolveDir(path string) string {
+	dir, base := filepath.Split(path)
+	if dir == "" {
+		return path
+	}
+	real, err := filepath.EvalSymlinks(dir)
+	if err != nil {
+		return filepath.Clean(path)
+	}
+	return filepath.Join(real, base)
 }
 
 // outputFileErr makes an error of an operation on the temporary file refer to the output file,
